@@ -69,6 +69,20 @@ let () =
     let ok = simple && doc_time_simple root
              && (match res with Ok d -> List.for_all (fun it -> in_range it.ti_st && in_range it.ti_en) d.td_items | _ -> true) in
     if ok then pres ptdoc res else (Buffer.add_string b "NS "; pres (fun _ -> ()) res));
+  register "xmlparse2" (fun r ->
+    match xml_parse2 (rstr r) with
+    | Some t -> pint 0; pxnode t
+    | None -> pint 1);
+  register "ttmlreadbytes2" (fun r ->
+    let simple = rbool r in
+    let data = rstr r in
+    match xml_parse2 data with
+    | Some t ->
+      let res = read_ttml t in
+      let ok = simple && doc_time_simple t
+               && (match res with Ok d -> List.for_all (fun it -> in_range it.ti_st && in_range it.ti_en) d.td_items | _ -> true) in
+      if ok then pres ptdoc res else (Buffer.add_string b "NS "; pres (fun _ -> ()) res)
+    | None -> Buffer.add_string b "NOPARSE");
   register "xmlparse" (fun r ->
     match xml_parse (rstr r) with
     | Some t -> pint 0; pxnode t
